@@ -128,3 +128,8 @@ CHECKS["C10"] = dict(
                  "filesystem steps not made through the intercepted os functions of cache.go are seen only at step boundaries"],
     stages=[dict(pkg="./pkg/resmgr/cache", run="TestVerifC10", shards=16)],
 )
+CHECKS["C11"] = _resmgr("C11",
+    "explicit-state BFS over histories that end in (or continue after) a plugin restart: a new real instance on the same state directory followed by Synchronize with the runtime's list; cuts: every request boundary and every "
+    "intermediate cache save of the interrupted request (captured through the os shim); runtime truth menu: unchanged, any one container gone/stopped, a pod gone, everything gone, one new container; up to two restarts; both policies; "
+    "oracle: exactly the created/running containers hold allocations, unknown pods/containers purged, C01-C05/C02 clauses; non-trivial = states with at least two live containers",
+    "6 scenarios, depth 4", "6 scenarios, depth 5")
